@@ -74,7 +74,7 @@ def run(chk):
     thorough = chk.tier == "thorough"
     model_check(chk, [("Neg_Dedisp_cropsign.cfg", "RealignDecl"), ("Neg_Dedisp_nostart.cfg", "StartAdvance")])
     gen_replay(chk, rnd)
-    n_law, n_inc = (24000, 12000) if thorough else (2200, 1300)
+    n_law, n_inc = (20000, 10000) if thorough else (1800, 1100)
     cases = [D.gen_law_case(rnd) for _ in range(n_law)]
     for i in range(n_inc):
         c = D.gen_incoh_case(rnd, i)
